@@ -423,4 +423,5 @@ RULES = [
 	('19.f', 'KVStore errors are propagated in the persistence paths', r19f),
 	('19.g', 'archive removes the live monitor only after the archive copy was written; Completed only on Ok', r19g),
 	('19.q', 'no call hands a value named like one parameter of the callee to a different parameter (swapped type-compatible arguments; rules/provenance.py)', lambda F: provenance.swaps_for_property(F, 'C19', '19.q')),
+	('19.z', 'named protocol / policy constants in this property\'s files have their reviewed values (rules/provenance.py)', lambda F: provenance.consts_for_property(F, 'C19', '19.z')),
 ]
